@@ -209,3 +209,77 @@ Proof.
   cbn zeta. split; [vm_compute; reflexivity|]. split; [vm_compute; reflexivity|].
   exists (bs "/a"). split; reflexivity.
 Qed.
+
+(* ---- one system (Model/Tables.v, Props/Tables.v, notes/Tables.md): the type table and the method lists of this
+   file's model are the ones Model/Dispatch.v (C06) and Model/Determinism.v (C04) compute ----
+   [T.u_of_disp] / [T.u_of_det] / [T.u_of_meth] describe their entries as this file's objects; [T.types_of os] /
+   [T.meths_of os] are the *types.TypeName / method entries of a Defs list of this model. *)
+Require Gengo.Model.Dispatch Gengo.Model.Determinism Gengo.Model.Tables Gengo.Props.Tables.
+Module T := Gengo.Model.Tables.
+
+(* every Defs list here, every Defs list of Dispatch describing the same type names, any two orders: same key set,
+   same lookup at every name the scope holds once *)
+Theorem C13_tables_agree_with_dispatch :
+  forall os ds,
+    Permutation (T.types_of os) (map T.u_of_disp ds) ->
+    (forall n, In n (map fst (t_types (fill_tables all_fixed os)))
+               <-> In n (Dispatch.keys (Dispatch.type_table true ds)))
+    /\ (forall n, unique_at os KType n ->
+          lookup KType n (fill_tables all_fixed os)
+          = option_map Dispatch.td_id (Dispatch.lookup n (Dispatch.type_table true ds))).
+Proof. exact Gengo.Props.Tables.Tables_universe_is_dispatch. Qed.
+Print Assumptions C13_tables_agree_with_dispatch.
+
+(* ... and Determinism's, for every behaviour of the runtime at its range over Defs *)
+Theorem C13_tables_agree_with_determinism :
+  forall (o : Determinism.oracle) p os,
+    Determinism.shuffles o ->
+    Permutation (T.types_of os) (map T.u_of_det (Determinism.pk_defs p)) ->
+    (forall n, In n (map fst (t_types (fill_tables all_fixed os)))
+               <-> In n (Determinism.keys (Determinism.type_table true o p)))
+    /\ (forall n, unique_at os KType n ->
+          lookup KType n (fill_tables all_fixed os)
+          = option_map Determinism.td_uid (Determinism.lookup n (Determinism.type_table true o p))).
+Proof. exact Gengo.Props.Tables.Tables_universe_is_determinism. Qed.
+Print Assumptions C13_tables_agree_with_determinism.
+
+(* Determinism's MethodsOf lists the names of exactly the methods this model's MethodsOf(n, true) returns
+   (C13_methods's permutation) ... *)
+Theorem C13_methods_agree_with_determinism :
+  forall fm (o : Determinism.oracle) p ptr os n,
+    Determinism.shuffles o ->
+    Permutation (T.meths_of os) (map (T.u_of_meth ptr) (Determinism.pk_meths p)) ->
+    Permutation (map o_name (methods_of all_fixed (fill_tables all_fixed os) n true))
+                (Determinism.methods_of fm o p (n_origin n)).
+Proof. exact Gengo.Props.Tables.Tables_methods_agree. Qed.
+Print Assumptions C13_methods_agree_with_determinism.
+
+(* ... and with the ordering of package.go:146-157 (repair 50ddee1, not part of Model/Universe.v:
+   [T.sorted_methods_of pos]) the two lists are equal *)
+Theorem C13_methods_sorted_agree_with_determinism :
+  forall (o : Determinism.oracle) p ptr os n,
+    Determinism.shuffles o ->
+    NoDup (map Determinism.m_pos (Determinism.pk_meths p)) ->
+    Permutation (T.meths_of os) (map (T.u_of_meth ptr) (Determinism.pk_meths p)) ->
+    map o_name (T.sorted_methods_of o_id (fill_tables all_fixed os) n true)
+    = Determinism.methods_of true o p (n_origin n).
+Proof. exact Gengo.Props.Tables.Tables_methods_sorted_agree. Qed.
+Print Assumptions C13_methods_sorted_agree_with_determinism.
+
+(* MethodsOf of the current code (table + ordering): the methods declared on the origin, sorted by position —
+   the same list for every order in which Defs is ranged over (distinct positions) *)
+Theorem C13_methods_sorted_order_independent :
+  forall (pos : obj -> N) defs p1 p2 n ptr,
+    Permutation p1 defs -> Permutation p2 defs ->
+    NoDup (map pos (T.meths_of defs)) ->
+    T.sorted_methods_of pos (fill_tables all_fixed p1) n ptr = T.sorted_methods_of pos (fill_tables all_fixed p2) n ptr.
+Proof. exact Gengo.Props.Tables.Tables_sorted_methods_order_independent. Qed.
+Print Assumptions C13_methods_sorted_order_independent.
+
+Theorem C13_methods_sorted_spec :
+  forall (pos : obj -> N) defs pi n,
+    Permutation pi defs ->
+    Permutation (T.sorted_methods_of pos (fill_tables all_fixed pi) n true) (filter (declared_on (n_origin n)) defs)
+    /\ StronglySorted (fun a b => N.leb (pos a) (pos b) = true) (T.sorted_methods_of pos (fill_tables all_fixed pi) n true).
+Proof. exact Gengo.Props.Tables.Tables_sorted_methods_spec. Qed.
+Print Assumptions C13_methods_sorted_spec.
